@@ -599,7 +599,8 @@ func (hp *HPACK) AppendHeader(dst []byte, hf *HeaderField, store bool) []byte {
 	index, fullMatch = hp.search(hf)
 	if hf.sensible {
 		c = false
-		dst = append(dst, 16)
+		// a never-indexed literal carries its name index on 4 bits
+		bits, dst = 4, append(dst, 16)
 	} else {
 		if index > 0 { // key and/or value can be used as index
 			if fullMatch {
